@@ -767,7 +767,11 @@ func (c *codegen) convertFuncDecl(file ast.Node, decl *ast.FuncDecl, pkg *types.
 		}
 	}
 
-	ast.Walk(c, decl.Body)
+	// The parameters, the results and the body of a function share one scope:
+	// `r, x := f()` in the body assigns to the named result r.
+	for i := range decl.Body.List {
+		ast.Walk(c, decl.Body.List[i])
+	}
 
 	// If we have reached the end of the function without encountering `return` statement,
 	// we should clean alt.stack manually.
@@ -3121,7 +3125,9 @@ func (c *codegen) emitStoreExpr(expr ast.Expr, tok token.Token) {
 		//  - for range statements, e.g.:
 		//        ints := []int{5, 4, 3, 2, 1}
 		//        for ints[0] = range ints
-		if tok == token.DEFINE && t.Name != "_" {
+		// A short variable declaration assigns to the variables already declared
+		// in the same scope, only the other ones are new.
+		if tok == token.DEFINE && t.Name != "_" && !c.scope.vars.isLocalOfCurrentScope(t.Name) {
 			c.scope.newLocal(t.Name)
 		}
 		c.emitStoreVar("", t.Name)
